@@ -8,6 +8,24 @@ ALL = ["C%02d" % i for i in range(1, 21)]
 
 # id -> (technique, level text, level note, design ref)
 CHECKS = {
+    "C01": ("bounded-exhaustive product-space exploration (declaration x call form x options x input) of the real "
+            "parser against a type-directed conformance predicate",
+            "Every declaration of the type grammar (plain, constrained via both declaration routes, shipped utype.types, "
+            "Literal, generics, logical combinations, data classes) is parsed in every call form with every non-waiving "
+            "option set on the whole atom alphabet plus type-directed containers; each returned value is judged by "
+            "spec.conforms, which never calls utype. Input-quantified property: exhaustive over explicit alphabets built "
+            "per converter branch.",
+            "Trusted: spec.conforms / refcons.ref_constraint (documentation-derived). Nothing is claimed about values, "
+            "nesting or declarations outside the alphabets (small-scope hypothesis).",
+            "DESIGN.md §3 C01"),
+    "C04": ("bounded-exhaustive product-space exploration with a deterministic step-budget watchdog; oracle: outcome is "
+            "a value or an instance of utype.exc.ParseError",
+            "Every constrained/logical/generic/data-class declaration and function context is called with the full "
+            "(hostile) atom alphabet and type-directed containers under 6 (quick) / 9 (thorough) option sets; any "
+            "other exception type, a function body entered on failure, or exceeding 4e5 line events is a violation.",
+            "Trusted: the exception classification and the line-event budget; recorded findings in known_findings.json "
+            "(hostile __str__ of a mapping key; Timestamp.pre_validate).",
+            "DESIGN.md §3 C04"),
     "C16": ("explicit-state exploration (DFS with state dedup) of register/resolve histories on the real "
             "TypeRegistry against a cache-free reference model",
             "All histories of register/resolve operations up to depth 4 (quick) / 5 (thorough) over a menu of "
